@@ -116,6 +116,19 @@ Theorem C12_rnd_sentinels_of_nonneg (rnd : R -> R) (fmax : R) (n k : nat) (e : n
   forall i, (i < n)%nat -> rnd (0 - fmax) <= pdf_value (RndOps rnd) k (e i) <= fmax.
 Proof. exact (fun RND => rnd_bounds_of_nonneg rnd RND fmax n k e). Qed.
 
+(* hypotheses on the data only: terms in [0, 1], FLOAT_MAX >= 1; the counts 0..k and 1 representable *)
+Theorem C12_rnd_minmax_unit_terms (rnd : R -> R) (fmax : R) (n k : nat) (gdens : R) (e : nat -> nat -> R)
+    (c mn mx : R) (dc : list (R * R)) :
+  rounding rnd -> rnd 1 = 1 ->
+  (forall z, (0 <= z <= Z.of_nat k)%Z -> rnd (IZR z) = IZR z) ->
+  (1 <= n)%nat -> 1 <= fmax ->
+  (forall i l, (i < n)%nat -> (l < k)%nat -> 0 <= e i l <= 1) ->
+  calculate_pdf (RndOps rnd) fmax 1000 n k gdens e = (c, mn, mx, dc) ->
+  (exists i, (i < n)%nat /\ mn = pdf_value (RndOps rnd) k (e i)) /\
+  (exists i, (i < n)%nat /\ mx = pdf_value (RndOps rnd) k (e i)) /\
+  0 <= mn /\ mn <= mx /\ mx <= 1.
+Proof. exact (rnd_minmax_unit_terms rnd fmax n k gdens e c mn mx dc). Qed.
+
 (* the float code cannot invert two samples, it can only merge them *)
 Theorem C12_rnd_density_weakly_monotone (rnd : R -> R) (fmax : R) (n k : nat) (gdens : R)
     (e : nat -> nat -> R) (c mn mx : R) (dc : list (R * R)) :
@@ -213,6 +226,18 @@ Proof.
   exact (fun RND H1 HZ HR H i Hi => rnd_cost_lt_density rnd RND fmax n k gdens e c mn mx dc H i H1 HZ HR Hi).
 Qed.
 
+(* eliminate_maxima_height: cost := max(density - h, 0) with the subtraction rounded *)
+Theorem C12_rnd_eliminate (rnd : R -> R) (h : R) (dens cost : list R) :
+  (0 < h -> eliminate_maxima (RndOps rnd) h dens cost = map (fun d => Rmax (rnd (d - h)) 0) dens) /\
+  (h <= 0 -> eliminate_maxima (RndOps rnd) h dens cost = cost) /\
+  (rounding rnd -> 0 < h -> forall d, 0 < d -> rnd d = d ->
+     0 <= Rmax (rnd (d - h)) 0 <= d /\ (Rmax (rnd (d - h)) 0 < d <-> rnd (d - h) <> d)).
+Proof.
+  exact (conj (proj1 (eliminate_rnd_spec rnd h dens cost))
+        (conj (proj2 (eliminate_rnd_spec rnd h dens cost))
+              (fun RND Hh d Hd Hf => eliminate_rnd_bounds rnd h d RND Hh Hd Hf))).
+Qed.
+
 (* ---------- limits of the rounding model (negative controls) ---------- *)
 
 (* an admissible rounding merges two distinct unmapped values: "weakly" cannot be improved *)
@@ -273,3 +298,11 @@ Theorem C12_rnd_example_instantiated :
      fst (nth i dc (0, 0)) <= fst (nth j dc (0, 0))) /\
   (forall i, (i < 3)%nat -> snd (nth i dc (0, 0)) < fst (nth i dc (0, 0))).
 Proof. exact ex3_rH_summary. Qed.
+
+(* the data-only min/max clause and the elimination step, instantiated under rH *)
+Theorem C12_rnd_example_minmax_eliminate :
+  ((exists i, (i < 3)%nat /\ 1 / 8 = pdf_value (RndOps rH) 1 (ex3_e i)) /\
+   (exists i, (i < 3)%nat /\ 203 / 625 = pdf_value (RndOps rH) 1 (ex3_e i)) /\
+   0 <= 1 / 8 /\ 1 / 8 <= 203 / 625 /\ 203 / 625 <= 1) /\
+  eliminate_maxima (RndOps rH) (3 / 8) [1; 2; 1000] [0; 1; 999] = [5 / 8; 3 / 2; 7997 / 8].
+Proof. exact (conj ex3_rH_minmax ex3_eliminate_rH). Qed.
